@@ -1166,7 +1166,8 @@ class TableDescription(ViewRepresentation):
     def __eq__(self, other):
         if not isinstance(other, TableDescription):
             return False
-        return self.key.__eq__(other.key)
+        # same name, columns and qualifiers (the hash stays the key: equal descriptions have equal keys)
+        return self._equiv_nodes(other)
 
     def __hash__(self):
         return self.key.__hash__()
